@@ -56,9 +56,9 @@ structure Env where
   stderr : Nat → Nat → StderrMode
   /-- `str(record)` raises for message `i` -/
   strFails : Nat → Bool
-  /-- `reenter i h = some j`: the sink of `h`, while writing message `i`, logs message `j`
-      through its own handler -/
-  reenter : Nat → Nat → Option Nat
+  /-- `reenter i h = [j₁, j₂, …]`: the sink of `h`, while writing message `i`, first logs the messages
+      `j₁, j₂, …` through its own handler -/
+  reenter : Nat → Nat → List Nat
   /-- an event loop is available when a coroutine sink receives message `i` -/
   loop : Nat → Bool
 
@@ -160,11 +160,19 @@ def rawWrite (env : Env) (c : Cfg) (i : Nat) (s : HState) : HState × Res :=
         | none => ({ s with sink := s.sink ++ [i] }, .ok)
     | _ => ({ s with sink := s.sink ++ [i] }, .ok)
 
-/-- `sink.write` on the logging thread; the sink may first log message `j` to its own handler -/
+/-- the logging calls a sink makes to its own handler, one after the other; the first one that raises
+    ends the sink's `write` -/
+def runInner (inner : Nat → Step) : List Nat → Step
+  | [], s => ⟨s, [], .ok⟩
+  | j :: rest, s =>
+    let r := inner j s
+    match r.res with
+    | .ok => let t := runInner inner rest r.st; ⟨t.st, r.ev ++ t.ev, t.res⟩
+    | _ => r
+
+/-- `sink.write` on the logging thread; the sink may first log to its own handler -/
 def sinkWrite (env : Env) (c : Cfg) (i : Nat) (inner : Nat → Step) : Step := fun s =>
-  let r1 : Ret := match env.reenter i c.id with
-    | some j => inner j s
-    | none => ⟨s, [], .ok⟩
+  let r1 := runInner inner (env.reenter i c.id) s
   match r1.res with
   | .ok => let w := rawWrite env c i r1.st; ⟨w.1, r1.ev, w.2⟩
   | _ => r1
